@@ -246,8 +246,15 @@ impl<R: Read> StreamBufferedReader<R> {
         }
 
         // Read data from underlying stream
-        let bytes_read = self.inner.read(&mut self.buffer[self.end..self.end + read_size])
-            .map_err(|e| ZiporaError::io_error(format!("Failed to fill buffer: {}", e)))?;
+        // ErrorKind::Interrupted is not an error: retry (the kind would be lost on the way up
+        // and read_exact on top of this reader would fail instead of retrying)
+        let bytes_read = loop {
+            match self.inner.read(&mut self.buffer[self.end..self.end + read_size]) {
+                Ok(n) => break n,
+                Err(e) if e.kind() == io::ErrorKind::Interrupted => continue,
+                Err(e) => return Err(ZiporaError::io_error(format!("Failed to fill buffer: {}", e))),
+            }
+        };
 
         self.end += bytes_read;
         self.total_read += bytes_read as u64;
@@ -343,14 +350,24 @@ impl<R: Read> StreamBufferedReader<R> {
                 }
                 
                 // Read remaining directly from underlying stream
-                let remaining = self.inner.read(&mut buf[to_copy..])
-                    .map_err(|e| ZiporaError::io_error(format!("Bulk read failed: {}", e)))?;
+                let remaining = loop {
+                    match self.inner.read(&mut buf[to_copy..]) {
+                        Ok(n) => break n,
+                        Err(e) if e.kind() == io::ErrorKind::Interrupted => continue,
+                        Err(e) => return Err(ZiporaError::io_error(format!("Bulk read failed: {}", e))),
+                    }
+                };
                 self.total_read += remaining as u64;
                 Ok(to_copy + remaining)
             } else {
                 // Read directly from underlying stream
-                let bytes_read = self.inner.read(buf)
-                    .map_err(|e| ZiporaError::io_error(format!("Bulk read failed: {}", e)))?;
+                let bytes_read = loop {
+                    match self.inner.read(buf) {
+                        Ok(n) => break n,
+                        Err(e) if e.kind() == io::ErrorKind::Interrupted => continue,
+                        Err(e) => return Err(ZiporaError::io_error(format!("Bulk read failed: {}", e))),
+                    }
+                };
                 self.total_read += bytes_read as u64;
                 Ok(bytes_read)
             }
